@@ -24,6 +24,7 @@ import (
 	"encoding/hex"
 	"encoding/json"
 	"encoding/pem"
+	"errors"
 	"fmt"
 	"hash"
 	"io"
@@ -565,9 +566,57 @@ func c18StartJwt(cfg verifh.Cfg) (func(op []string) string, func()) {
 	var now int64
 	savedTimeFunc := jwt.TimeFunc
 	jwt.TimeFunc = func() time.Time { return time.Unix(now, 0) }
+	// the option list of Authorize: `prev` is the previous secret IN FORCE, `opt` says how the list spells it, `cb` which
+	// kind of UnauthorizedCallback is installed (and `cbpos` on which side of the secret options)
 	var opts []AuthorizeOption
-	if prev != "" {
+	disc := string(c18Unhex(cfg.Str("disc", "-")))
+	switch optKind := cfg.Str("opt", "auto"); optKind {
+	case "auto":
+		if prev != "" {
+			opts = append(opts, WithPrevSecret(prev))
+		}
+	case "none":
+	case "prev": // also WithPrevSecret("") when no previous secret is in force
 		opts = append(opts, WithPrevSecret(prev))
+	case "prev-twice": // the later option wins
+		opts = append(opts, WithPrevSecret(disc), WithPrevSecret(prev))
+	default:
+		panic("c18: bad opt " + optKind)
+	}
+	cbKind := cfg.Str("cb", "none")
+	var ucb, ucbErr int
+	if cbKind != "none" {
+		var cb UnauthorizedCallback
+		switch cbKind {
+		case "nil": // what the engine passes when the server has no callback
+		case "quiet":
+			cb = func(w http.ResponseWriter, r *http.Request, err error) {}
+		case "status":
+			cb = func(w http.ResponseWriter, r *http.Request, err error) { w.WriteHeader(http.StatusForbidden) }
+		case "body":
+			cb = func(w http.ResponseWriter, r *http.Request, err error) { w.Write([]byte("denied")) }
+		case "panic-err":
+			cb = func(w http.ResponseWriter, r *http.Request, err error) { panic(errors.New("callback failed")) }
+		case "panic-str":
+			cb = func(w http.ResponseWriter, r *http.Request, err error) { panic("callback failed") }
+		default:
+			panic("c18: bad cb " + cbKind)
+		}
+		var counted UnauthorizedCallback
+		if cb != nil {
+			counted = func(w http.ResponseWriter, r *http.Request, err error) {
+				ucb++
+				if err != nil {
+					ucbErr++
+				}
+				cb(w, r, err)
+			}
+		}
+		if cfg.Str("cbpos", "last") == "first" {
+			opts = append([]AuthorizeOption{WithUnauthorizedCallback(counted)}, opts...)
+		} else {
+			opts = append(opts, WithUnauthorizedCallback(counted))
+		}
 	}
 	mw := Authorize(secret, opts...)
 	wire := &c18Wire{}
@@ -594,6 +643,7 @@ func c18StartJwt(cfg verifh.Cfg) (func(op []string) string, func()) {
 		var got c18Got
 		var facts c18Facts
 		ctxSeen := map[string]string{}
+		ucb, ucbErr = 0, 0
 		inner := http.HandlerFunc(func(w http.ResponseWriter, r *http.Request) {
 			got.ran++
 			for k := range facts.claims {
@@ -601,6 +651,7 @@ func c18StartJwt(cfg verifh.Cfg) (func(op []string) string, func()) {
 					ctxSeen[k] = c18Canon(v)
 				}
 			}
+			c18Outcome(w, kv["hk"])
 		})
 		front := c18Front(&got, mw(inner))
 		h := http.HandlerFunc(func(w http.ResponseWriter, r *http.Request) {
@@ -619,13 +670,52 @@ func c18StartJwt(cfg verifh.Cfg) (func(op []string) string, func()) {
 		if got.panicked {
 			status = "PANIC"
 		}
-		return fmt.Sprintf("%s nauth=%d ran=%d status=%s ctx=%s", facts.text, len(got.auValues), got.ran, status, c18Pairs(ctxSeen))
+		return fmt.Sprintf("%s nauth=%d ran=%d status=%s ctx=%s ucb=%d ucberr=%d", facts.text, len(got.auValues), got.ran, status, c18Pairs(ctxSeen), ucb, ucbErr)
 	}
 	return step, func() {
 		wire.close()
 		jwt.TimeFunc = savedTimeFunc
 		timex.VerifClockOff()
 	}
+}
+
+// c18Outcome: how the wrapped (user) handler ends, after it has read what it was given:
+// "" / ok = a normal return (implicit 200), st404 / st500 = an explicit status, panic-err / panic-str = a panic with an error /
+// a non-error value, abort = http.ErrAbortHandler
+func c18Outcome(w http.ResponseWriter, kind string) {
+	switch kind {
+	case "", "ok":
+	case "st404":
+		w.WriteHeader(http.StatusNotFound)
+	case "st500":
+		w.WriteHeader(http.StatusInternalServerError)
+	case "panic-err":
+		panic(errors.New("handler failed"))
+	case "panic-str":
+		panic("handler failed")
+	case "abort":
+		panic(http.ErrAbortHandler)
+	default:
+		panic("c18: bad handler outcome " + kind)
+	}
+}
+
+// c18Inner: the wrapped (user) handler of the cs / crypt sections: reads the body, sets an explicit status (st…), writes the
+// reply, panics (panic-… / abort) — in that order
+func c18Inner(got *c18Got, reply []byte, hk string) http.Handler {
+	return http.HandlerFunc(func(w http.ResponseWriter, r *http.Request) {
+		got.ran++
+		got.seen, _ = io.ReadAll(r.Body)
+		if strings.HasPrefix(hk, "st") {
+			c18Outcome(w, hk)
+		}
+		if len(reply) > 0 {
+			w.Write(reply)
+		}
+		if !strings.HasPrefix(hk, "st") {
+			c18Outcome(w, hk)
+		}
+	})
 }
 
 func c18MutSig(sig, m string) string {
@@ -741,7 +831,31 @@ func c18StartCs(cfg verifh.Cfg, dir string) (func(op []string) string, func()) {
 		}
 		return c18RsaOracle(k, secret)
 	}
-	mw := LimitContentSecurityHandler(limit, decrypters, time.Duration(tol)*time.Second, strict)
+	// user UnsignedCallbacks (they REPLACE the default one): none / one that writes nothing / one that writes 401 / two
+	var scbCount int
+	var cbs []UnsignedCallback
+	quietCb := func(w http.ResponseWriter, r *http.Request, next http.Handler, strict bool, code int) { scbCount++ }
+	switch k := cfg.Str("scb", "none"); k {
+	case "none":
+	case "quiet":
+		cbs = []UnsignedCallback{quietCb}
+	case "status":
+		cbs = []UnsignedCallback{func(w http.ResponseWriter, r *http.Request, next http.Handler, strict bool, code int) {
+			scbCount++
+			w.WriteHeader(http.StatusUnauthorized)
+		}}
+	case "two":
+		cbs = []UnsignedCallback{quietCb, quietCb}
+	default:
+		panic("c18: bad scb " + k)
+	}
+	mw := LimitContentSecurityHandler(limit, decrypters, time.Duration(tol)*time.Second, strict, cbs...)
+	if cfg.Str("ctor", "limit") == "plain" { // the constructor without a limit: the package's maxBytes
+		if limit != 1<<20 {
+			panic("c18: ctor=plain needs the default limit")
+		}
+		mw = ContentSecurityHandler(decrypters, time.Duration(tol)*time.Second, strict, cbs...)
+	}
 	wire := &c18Wire{}
 	step := func(op []string) string {
 		if op[0] != "req" {
@@ -861,13 +975,8 @@ func c18StartCs(cfg verifh.Cfg, dir string) (func(op []string) string, func()) {
 				rsaFacts = strings.Join(facts, ",")
 			}
 			var got c18Got
-			inner := http.HandlerFunc(func(w http.ResponseWriter, r *http.Request) {
-				got.ran++
-				got.seen, _ = io.ReadAll(r.Body)
-				if len(reply) > 0 {
-					w.Write(reply)
-				}
-			})
+			inner := c18Inner(&got, reply, kv["hk"])
+			scbCount = 0
 			status, respBody := wire.send(kv["via"], c18Front(&got, mw(inner)), q)
 			if boundary && time.Now().Unix() != now && attempt < 5 {
 				continue // the second ticked while the request was being served: not a deterministic observation
@@ -878,9 +987,9 @@ func c18StartCs(cfg verifh.Cfg, dir string) (func(op []string) string, func()) {
 			if got.panicked {
 				status = "PANIC"
 			}
-			return fmt.Sprintf("now=%d p=%s q=%s cl=%d uripq=%s hdrs=%s rsa=%s aes=%s ran=%d status=%s seen=%s resp=%s",
+			return fmt.Sprintf("now=%d p=%s q=%s cl=%d uripq=%s hdrs=%s rsa=%s aes=%s ran=%d status=%s seen=%s resp=%s scb=%d",
 				now, c18Hex([]byte(got.path)), c18Hex([]byte(got.query)), got.cl, uriFact, c18HexList(got.csValues, secret), rsaFacts,
-				c18AesOracle(c18Unhex(kv["ak"]), body, respBody), got.ran, status, c18Hex(got.seen), c18Hex(respBody))
+				c18AesOracle(c18Unhex(kv["ak"]), body, respBody), got.ran, status, c18Hex(got.seen), c18Hex(respBody), scbCount)
 		}
 	}
 	return step, wire.close
@@ -890,6 +999,12 @@ func c18StartCrypt(cfg verifh.Cfg) (func(op []string) string, func()) {
 	key := c18Unhex(cfg.Str("key", "-"))
 	limit := int64(cfg.Int("limit", 1<<20))
 	mw := LimitCryptionHandler(limit, key)
+	if cfg.Str("ctor", "limit") == "plain" {
+		if limit != 1<<20 {
+			panic("c18: ctor=plain needs the default limit")
+		}
+		mw = CryptionHandler(key)
+	}
 	wire := &c18Wire{}
 	step := func(op []string) string {
 		if op[0] != "req" {
@@ -900,13 +1015,7 @@ func c18StartCrypt(cfg verifh.Cfg) (func(op []string) string, func()) {
 		reply := c18Unhex(kv["reply"])
 		q := c18Req{method: http.MethodPost, target: "/a", body: body, fr: kv["fr"], clOverride: kv["cl"]}
 		var got c18Got
-		inner := http.HandlerFunc(func(w http.ResponseWriter, r *http.Request) {
-			got.ran++
-			got.seen, _ = io.ReadAll(r.Body)
-			if len(reply) > 0 {
-				w.Write(reply)
-			}
-		})
+		inner := c18Inner(&got, reply, kv["hk"])
 		status, respBody := wire.send(kv["via"], c18Front(&got, mw(inner)), q)
 		if !got.reached {
 			return "unreached status=" + status
@@ -1163,7 +1272,16 @@ func c18GenJwt(r *verifh.Rng, plan *c18Plan, muts []c18JwtMut, weights []int) ve
 	}
 	other := c18RandWord(r, 6, 24)
 	t0 := int64(r.Range(0, 1000)) * 1_000_000_000
-	cfg := fmt.Sprintf("kind=jwt secret=%s prev=%s t0=%d", c18H(secret), c18H(prev), t0)
+	// how the option list of Authorize spells the previous secret, and which UnauthorizedCallback is installed
+	opt := "auto"
+	if prev == "" {
+		opt = r.PickS("auto", "none", "prev") // "prev" = WithPrevSecret("")
+	} else {
+		opt = r.PickS("auto", "prev", "prev-twice")
+	}
+	cb := r.PickS("none", "none", "nil", "quiet", "status", "body", "panic-err", "panic-str")
+	cfg := fmt.Sprintf("kind=jwt secret=%s prev=%s t0=%d opt=%s disc=%s cb=%s cbpos=%s", c18H(secret), c18H(prev), t0, opt, c18H(other), cb,
+		r.PickS("first", "last"))
 	var ops []string
 	nreq := r.Range(8, verifh.Scale(30, 50))
 	for i := 0; i < nreq; i++ {
@@ -1332,6 +1450,9 @@ func c18GenJwt(r *verifh.Rng, plan *c18Plan, muts []c18JwtMut, weights []int) ve
 			clk = 90000 * 1_000_000_000 // past the 24 h history reset
 		}
 		op := fmt.Sprintf("req auth=%s now=%d clk=%d mut=%s", c18H(auth), now, clk, t.label)
+		if r.Chance(1, 4) {
+			op += " hk=" + r.PickS("st404", "st500", "panic-err", "panic-str", "abort")
+		}
 		if auth2 != "" {
 			op += " auth2=" + c18H(auth2)
 		}
@@ -1498,7 +1619,13 @@ func c18CsMuts() []c18CsMut {
 	add("inv-ts-outside-past", 3, func(o *c18CsOp) { dt(o, -(o.tol + 1)) })
 	add("inv-ts-far-future", 1, func(o *c18CsOp) { dt(o, o.r.Pick(o.tol+100, 100000, 1<<33)) })
 	add("inv-ts-far-past", 1, func(o *c18CsOp) { dt(o, -o.r.Pick(o.tol+100, 100000, 1<<33)) })
-	add("eq-ts-anywhere-inside", 2, func(o *c18CsOp) { dt(o, o.r.Range(-o.tol+2, o.tol-2)) })
+	add("eq-ts-anywhere-inside", 2, func(o *c18CsOp) {
+		if o.tol < 3 { // a zero / negative tolerance has no inside
+			dt(o, 0)
+			return
+		}
+		dt(o, o.r.Range(-o.tol+2, o.tol-2))
+	})
 	add("inv-ts-signed-differs", 2, func(o *c18CsOp) { o.extra["sdt"] = strconv.Itoa(o.r.Pick(1, -1, 10)) })
 	add("inv-ts-missing", 1, func(o *c18CsOp) { o.plain = "version=v1; type=" + o.typ + "; key=" + o.keyB64() })
 	add("inv-ts-malformed", 2, func(o *c18CsOp) {
@@ -1783,6 +1910,9 @@ func c18GenCs(r *verifh.Rng, plan *c18Plan, muts []c18CsMut, weights []int, forc
 		strict = 0
 	}
 	tol := r.Pick(5, 60, 3600)
+	if r.Chance(1, 9) {
+		tol = r.Pick(0, -5) // zero: only the very second passes; negative: nothing passes
+	}
 	limit := r.Pick(1<<20, 1<<20, 1<<20, 64, 128)
 	var limitMuts []int
 	if forceLimit > 0 {
@@ -1798,7 +1928,15 @@ func c18GenCs(r *verifh.Rng, plan *c18Plan, muts []c18CsMut, weights []int, forc
 	if twoKeys {
 		fps += "," + c18H("other") + ":k2"
 	}
-	cfg := fmt.Sprintf("kind=cs strict=%d tol=%d limit=%d fps=%s", strict, tol, limit, fps)
+	ctor := "limit"
+	if limit == 1<<20 && r.Chance(1, 2) {
+		ctor = "plain" // ContentSecurityHandler(decrypters, tolerance, strict)
+	}
+	scb := "none"
+	if forceLimit == 0 && r.Chance(1, 5) {
+		scb = r.PickS("quiet", "status", "two")
+	}
+	cfg := fmt.Sprintf("kind=cs strict=%d tol=%d limit=%d fps=%s ctor=%s scb=%s", strict, tol, limit, fps, ctor, scb)
 	var ops []string
 	nreq := r.Range(10, verifh.Scale(30, 45))
 	if n := 2 * len(limitMuts); nreq < n {
@@ -1861,6 +1999,9 @@ func c18GenCs(r *verifh.Rng, plan *c18Plan, muts []c18CsMut, weights []int, forc
 		}
 		if o.via != "" {
 			op += " via=" + o.via
+		}
+		if r.Chance(1, 5) {
+			op += " hk=" + r.PickS("st404", "st500", "panic-err", "panic-str", "abort")
 		}
 		var ks []string
 		for k := range o.extra {
@@ -1953,6 +2094,9 @@ func c18GenCrypt(r *verifh.Rng, plan *c18Plan, combos [][2]int) verifh.Section {
 	}
 	limit := r.Pick(1<<20, 1<<20, 48, 0, -1)
 	cfg := fmt.Sprintf("kind=crypt key=%s limit=%d", c18Hex(key), limit)
+	if limit == 1<<20 && r.Chance(1, 2) {
+		cfg += " ctor=plain" // CryptionHandler(key)
+	}
 	var ops []string
 	valid := len(key) == 16 || len(key) == 24 || len(key) == 32
 	frames := []string{"len", "chunked", "len-wire", "chunked-wire"}
@@ -2031,6 +2175,9 @@ func c18GenCrypt(r *verifh.Rng, plan *c18Plan, combos [][2]int) verifh.Section {
 			}
 		}
 		op += " fr=" + fr + extra
+		if r.Chance(1, 4) {
+			op += " hk=" + r.PickS("st404", "st500", "panic-err", "panic-str", "abort")
+		}
 		ops = append(ops, op)
 	}
 	return verifh.Section{Cfg: cfg, Ops: ops}
